@@ -884,3 +884,149 @@ func sharedPartialCopy(c *an.Ctx, rule string, inScope func(fn *ssa.Function) bo
 	}
 	return examined
 }
+
+// mainPipeline is the decision table of the main middleware's handler
+// (mainmw.Wrap's closure): the order filter selection -> request filtering ->
+// context check -> next stage with the non-writer -> response filtering ->
+// verdict application -> one WriteMsg of the filtered response for the original
+// request -> recording only after a successful write.
+func mainPipeline(c *an.Ctx, rule string) {
+	const mm = "dnssvc/internal/mainmw.(*Middleware)."
+	decide(c, rule, mm+"Wrap$1", an.DecideCfg{
+		Dom: an.Domain{"ctxerr": an.Bools, "nexterr": an.Bools, "fctx.isDebug": an.Bools, "writeerr": an.Bools, "same": an.Bools,
+			"(nonnil:filtered == nonnil:upstream)": {an.CBool(false)}, "(nonnil:upstream == nonnil:filtered)": {an.CBool(false)}},
+		OnCall: func(it *an.Interp, name string, args []an.AV) (an.AV, bool) {
+			errOr := func(k, e string) an.AV {
+				if it.Feature(k).IsTrue() {
+					return an.NonNil(e)
+				}
+				return an.Nil()
+			}
+			switch {
+			case strings.HasSuffix(name, ").newFilteringContext"):
+				if args[1].String() != "p2" {
+					return an.Sym("filtering context of another request"), true
+				}
+				return an.NonNil("fctx"), true
+			case strings.HasSuffix(name, "agd.MustRequestInfoFromContext"):
+				return an.NonNil("ri"), true
+			case strings.HasSuffix(name, "optslog.Debug2"), strings.HasSuffix(name, ".Put"):
+				return an.Nil(), true
+			case strings.HasSuffix(name, mm+"filter"), strings.HasSuffix(name, "mainmw.Middleware).filter"):
+				return an.NonNil("flt(" + args[2].String() + ")"), true
+			case strings.HasSuffix(name, ").filterRequest"), strings.HasSuffix(name, ").filterResponse"), strings.HasSuffix(name, ").reportMetrics"),
+				strings.HasSuffix(name, ").recordQueryInfo"), strings.HasSuffix(name, "Cloner).Dispose"):
+				return an.Nil(), true
+			case strings.HasSuffix(name, ").setFilteredResponse"):
+				// the verdict application decides what is written: the upstream answer or another message
+				if it.Feature("same").IsTrue() {
+					it.SetMem("fctx.filteredResponse", an.NonNil("upstream"))
+				} else {
+					it.SetMem("fctx.filteredResponse", an.NonNil("filtered"))
+				}
+				return an.Nil(), true
+			case name == "p0.Err":
+				return errOr("ctxerr", "ctxErr"), true
+			case strings.HasSuffix(name, "internal.MakeNonWriter"):
+				return an.NonNil("nwrw(" + args[0].String() + ")"), true
+			case strings.HasSuffix(name, ").nextParams"):
+				return an.AV{Kind: an.KTuple, Tup: []an.AV{an.NonNil("nctx"), an.NonNil("nrw(" + args[3].String() + ")"), an.NonNil("nreq(" + args[2].String() + ")")}}, true
+			case strings.HasSuffix(name, "next.ServeDNS"):
+				return errOr("nexterr", "nextErr"), true
+			case strings.HasSuffix(name, "NonWriter).Msg"), strings.HasSuffix(name, ".Msg"):
+				return an.NonNil("upstream"), true
+			case strings.HasSuffix(name, ").writeDebugResponse"):
+				return an.Sym("debugresult"), true
+			case name == "p1.WriteMsg":
+				return errOr("writeerr", "writeErr"), true
+			case strings.HasSuffix(name, "errors.Annotate"):
+				return args[0], true
+			}
+			return an.AV{}, false
+		},
+		Inline: func(f *ssa.Function) bool { return strings.HasPrefix(an.FnKey(f), mm+"Wrap$1$") },
+		Expect: func(f an.Features, o an.AOutcome) string {
+			idx := func(suffix string) int {
+				for i, e := range o.Effects {
+					if e.Kind == "call" && strings.HasSuffix(e.Name, suffix) {
+						return i
+					}
+				}
+				return -1
+			}
+			count := func(suffix string) (n int) {
+				for _, e := range o.Effects {
+					if e.Kind == "call" && strings.HasSuffix(e.Name, suffix) {
+						n++
+					}
+				}
+				return n
+			}
+			if o.Exit != "return" || len(o.Ret) != 1 {
+				return "an error result"
+			}
+			fr, nx, fresp, sfr, wr, rec := idx(").filterRequest"), idx("next.ServeDNS"), idx(").filterResponse"), idx(").setFilteredResponse"), idx("p1.WriteMsg"), idx(").recordQueryInfo")
+			if fr < 0 {
+				return "the request filtered first"
+			}
+			if f.B("ctxerr") {
+				if nx < 0 && wr < 0 && rec < 0 && o.Ret[0].Kind != an.KNil {
+					return ""
+				}
+				return "an error and no upstream query, write or record when the context expired during filtering"
+			}
+			if nx < fr || count("next.ServeDNS") != 1 {
+				return "exactly one call of the next stage, after request filtering"
+			}
+			for _, e := range o.Effects {
+				if e.Kind == "call" && strings.HasSuffix(e.Name, "next.ServeDNS") && !strings.Contains(e.Args[1], "nwrw(p1)") {
+					return "the next stage given the non-writer wrapping this request's writer (so that it cannot answer on its own); got " + e.Args[1]
+				}
+			}
+			if f.B("nexterr") {
+				if wr < 0 && rec < 0 && fresp < 0 && o.Ret[0].Kind != an.KNil {
+					return ""
+				}
+				return "the next stage's error returned and nothing written or recorded"
+			}
+			if !(nx < fresp && fresp < sfr) {
+				return "response filtering and then verdict application after the upstream answer"
+			}
+			if got := o.Mem["fctx.originalResponse"].String(); got != "nonnil:upstream" {
+				return "the non-writer's message recorded as the original response; got " + got
+			}
+			if f.B("fctx.isDebug") {
+				if wr < 0 && rec < 0 && o.RetString() == "debugresult" {
+					return ""
+				}
+				return "the debug response for CHAOS-class queries (no record)"
+			}
+			if count("p1.WriteMsg") != 1 || wr < sfr {
+				return "exactly one WriteMsg, after the verdict is applied"
+			}
+			want := "nonnil:filtered"
+			if f.B("same") {
+				want = "nonnil:upstream"
+			}
+			for _, e := range o.Effects {
+				if e.Kind == "call" && e.Name == "p1.WriteMsg" && (e.Args[1] != "fctx.originalRequest" || e.Args[2] != want) {
+					return "the filtered response written for the original request; got " + strings.Join(e.Args, ",")
+				}
+			}
+			if f.B("writeerr") {
+				if rec < 0 && o.Ret[0].Kind != an.KNil {
+					return ""
+				}
+				return "the write error returned and nothing recorded"
+			}
+			if rec < wr || count(").recordQueryInfo") != 1 || o.Ret[0].Kind != an.KNil {
+				return "exactly one record, after the successful write"
+			}
+			disp := count("Cloner).Dispose")
+			if f.B("same") != (disp == 0) {
+				return fmt.Sprintf("the upstream answer disposed exactly when another message was written (same=%v, disposals=%d)", f.B("same"), disp)
+			}
+			return ""
+		},
+	})
+}
